@@ -30,15 +30,22 @@ RULE = ('all undirected graphs with at least one edge on n <= 4 nodes (quick; th
         'handed over as bool / int64 / float32 / dense / unsorted CSR / CSR with duplicate entries, refits of an already fitted estimator, '
         'stored zero entries (explicit zeros on both sides of a non-adjacent pair, on ONE side only - the matrix stays symmetric '
         'in value -, on the diagonal: all graphs of 3 nodes x every such position, 25 (400) sampled graphs of 4-7 nodes with 1-3 '
-        'of them), all biadjacency matrices up to 2x3 and random ones x {Paris(weights, reorder), '
+        'of them), DIRECTED graphs whose entries have the integer part of their mirror entries (all digraphs of 3 nodes x 0.5; 60 '
+        '(1 200) sampled digraphs / DAGs of 4-8 nodes scaled by 0.5 or 0.25, with weights from {0.25, 0.5, 0.75, 0.1, 0.9, 1/3}, with '
+        'mirrored pairs differing in the fraction only - 1.25 against 1.75 -, mixed with symmetric pairs and one-way edges >= 1), '
+        'all biadjacency matrices up to 2x3 and random ones x {Paris(weights, reorder), '
         'LouvainHierarchy(resolution, shuffle), LouvainIteration(depth, resolution, shuffle)}; random nested trees for '
         'get_dendrogram; random valid dendrograms for reorder_dendrogram / split_dendrogram. A case is non-trivial when the '
         'graph has at least 3 nodes and 2 edges (algorithms) or the tree / dendrogram has at least 3 leaves; distinct = '
         'distinct (function, input, options)')
 ASSUMPTIONS = ['Louvain.fit_predict is a parameter of the Louvain tree builders (its recorded labels are replayed by the model)',
                'np.lexsort sorts stably by (height, larger child); np.unique returns the sorted distinct labels',
-               'format checks, get_probs, symmetrisation, removal of explicit zeros and the unit diagonal of Paris.fit are executed by the harness with '
-               "the library's own helpers; the model starts at the AggregateGraph",
+               'the model starts at the AggregateGraph: the pre-processing of Paris.fit is replayed by the harness - format checks and '
+               "get_probs with the library's own helpers; the symmetry test (entry by entry on the values), A + A^T, the removal of "
+               'explicit zeros and the unit diagonal with scipy operations written in the harness, so that a wrong is_symmetric / '
+               'directed2undirected shows as a disagreement of the chain',
+               'every estimator fit runs in a supervised worker process; a fit that does not return within 30 s (5 s / 1.5 s after '
+               'repeated cases) is stopped and reported as `err DidNotReturn`, a failure of the property like an exception',
                'edge weights are non-negative, at least one is positive',
                'on this platform (x86-64, SSE2 doubles, no FMA contraction in the compiled kernel) the chain of Paris is compared bit for bit; '
                'elsewhere the comparison would need the margins of DESIGN 8',
@@ -56,6 +63,103 @@ def _call(f):
 
 def _bits(x):
     return str(struct.unpack('<Q', struct.pack('<d', float(x)))[0])
+
+
+# ---------------------------------------------------------------------------------------------------
+# the estimators run in a supervised worker process: a fit that does not return (Paris on neighbour lists that are
+# not symmetric can walk its chain round a directed cycle for ever, inside compiled code that no signal handler
+# interrupts) is a failure of the property like an exception, not a check that never ends
+# ---------------------------------------------------------------------------------------------------
+ATTRS = ('dendrogram_', 'dendrogram_row_', 'dendrogram_col_', 'dendrogram_full_')
+_SUP = {'proc': None, 'conn': None, 'hangs': 0, 'skipped': 0}
+HANG_LIMIT = 40
+
+
+def _fit_job(kind, opts, a, force_bipartite, container, refit, via, capture):
+    """(in the worker) build the estimator, fit, return (status, fitted attributes, captured tree / Louvain calls)"""
+    from sknetwork.hierarchy import Paris, LouvainHierarchy, LouvainIteration
+    alg = {'Paris': Paris, 'LouvainHierarchy': LouvainHierarchy, 'LouvainIteration': LouvainIteration}[kind](**opts)
+    bip = force_bipartite or a.shape[0] != a.shape[1]
+    rec = {}
+
+    def f():
+        if refit is not None:
+            alg.fit(_gfrom(refit))
+        x = _container(a, container)
+        if capture:
+            rec.update(_fit_capture(alg, x, force_bipartite))
+            return 'ok'
+        if via is None:
+            alg.fit(x, force_bipartite=force_bipartite)
+            return 'ok'
+        # the other entry points of BaseHierarchy: what they return must be the fitted attributes
+        got = getattr(alg, via)(x, force_bipartite=force_bipartite)
+        same = (np.array_equal(got, alg.dendrogram_) and np.array_equal(alg.predict(), alg.dendrogram_)
+                and np.array_equal(alg.transform(), alg.dendrogram_))
+        if bip:
+            same = same and np.array_equal(alg.predict(columns=True), alg.dendrogram_col_)
+        return 'ok' if same else 'malformed-dendrogram'
+    st = _call(f)
+    attrs = {k: getattr(alg, k, None) for k in ATTRS}
+    return st, attrs, rec
+
+
+def _worker_loop(conn):
+    while True:
+        try:
+            job = conn.recv()
+        except EOFError:
+            return
+        try:
+            conn.send(_fit_job(*job))
+        except Exception as e:                                     # noqa: BLE001 - e.g. an attribute that does not pickle
+            conn.send(('err ' + type(e).__name__, {}, {}))
+
+
+def _sup_stop():
+    p = _SUP['proc']
+    if p is not None:
+        try:
+            p.kill()
+            p.join(2)
+        except Exception:                                          # noqa: BLE001
+            pass
+    _SUP['proc'] = _SUP['conn'] = None
+
+
+def _sup_fit(kind, opts, a, force_bipartite=False, container=None, refit=None, via=None, capture=False):
+    """-> (status, namespace with the fitted attributes, capture record), or None once HANG_LIMIT fits have not returned
+    (the run has failed long before; the remaining fits are counted as skipped by the callers).
+    Waiting time: 30 s for the first two fits that do not return, 5 s for the next four, then 1.5 s for inputs with at
+    most 30 nodes (an ordinary fit of that size takes a few milliseconds)."""
+    import multiprocessing as mp
+    import types
+    if _SUP['hangs'] >= HANG_LIMIT:
+        _SUP['skipped'] += 1
+        return None
+    if _SUP['proc'] is None or not _SUP['proc'].is_alive():
+        _sup_stop()
+        ctxm = mp.get_context('fork')
+        parent, child = ctxm.Pipe()
+        proc = ctxm.Process(target=_worker_loop, args=(child,), daemon=True)
+        proc.start()
+        child.close()
+        _SUP['proc'], _SUP['conn'] = proc, parent
+    conn = _SUP['conn']
+    small = a.shape[0] + a.shape[1] <= 30
+    wait = 30.0 if _SUP['hangs'] < 2 else (5.0 if (_SUP['hangs'] < 6 or not small) else 1.5)
+    try:
+        conn.send((kind, opts or {}, a, force_bipartite, container, refit, via, capture))
+        if conn.poll(wait):
+            st, attrs, rec = conn.recv()
+        else:
+            _SUP['hangs'] += 1
+            _sup_stop()
+            st, attrs, rec = 'err DidNotReturn', {}, {}
+    except (EOFError, OSError):
+        _sup_stop()
+        st, attrs, rec = 'err WorkerDied', {}, {}
+    return st, types.SimpleNamespace(**{k: attrs.get(k) for k in ATTRS}), rec
 
 
 def _tree_tok(t):
@@ -260,15 +364,21 @@ def _out_cases(alg_name, opts, a, alg, impl_state, sorted_expected, key, sig, de
 
 
 def paris_model_line(a, weights, reorder, force_bipartite):
-    """The request line for the Lean model of Paris.fit: the library's own pre-processing applied to the object the
-    fit receives, then the stored entries as they are (unsorted, duplicated …) as bits of doubles."""
-    from sknetwork.utils.format import get_adjacency, directed2undirected
-    from sknetwork.utils.check import get_probs, is_symmetric
+    """The request line for the Lean model of Paris.fit: the pre-processing of fit replayed on the object the fit
+    receives (format and get_probs by the library's helpers; the symmetry test, A + A^T and the removal of explicit zeros
+    by scipy operations written here), then the stored entries as they are (unsorted, duplicated …) as bits of doubles."""
+    from sknetwork.utils.format import get_adjacency
+    from sknetwork.utils.check import get_probs
     adjacency, _ = get_adjacency(a, force_bipartite=force_bipartite)
     out_w = get_probs(weights, adjacency)
     in_w = get_probs(weights, adjacency.T)
-    if not is_symmetric(adjacency):
-        adjacency = directed2undirected(adjacency)
+    # whether the matrix is symmetric is decided HERE, entry by entry on the values, and the symmetrisation A + A^T is
+    # taken here too (in float; integers when the dtype is not floating, as directed2undirected does): a wrong answer of
+    # the library's is_symmetric / directed2undirected must not reach the model's input
+    if (adjacency != adjacency.T).nnz != 0:
+        sym = adjacency.astype(float if np.issubdtype(adjacency.dtype, np.floating) else int)
+        adjacency = sparse.csr_matrix(sym + sym.T)
+        adjacency.sort_indices()
     elif adjacency.nnz != adjacency.count_nonzero():
         # explicit zeros are dropped (F27): the stored entries are then the non-zero values, symmetric like them
         adjacency = adjacency.copy()
@@ -298,25 +408,14 @@ def _enc_bits_dendro(d):
 def cases_paris(a, weights, reorder, force_bipartite=False, gname='', container=None, refit=None, ctx=None, via=None):
     """`container`: hand the same graph over as another dtype / a dense array / a non-canonical CSR matrix.
     `refit`: a matrix fitted first on the same estimator object (the attributes of the second fit are checked)."""
-    from sknetwork.hierarchy import Paris
     a = sparse.csr_matrix(a)
     bip = force_bipartite or a.shape[0] != a.shape[1]
-    alg = Paris(weights=weights, reorder=reorder)
-
-    def f():
-        if refit is not None:
-            alg.fit(_gfrom(refit))
-        if via is None:
-            alg.fit(_container(a, container), force_bipartite=force_bipartite)
-            return 'ok'
-        # the other entry points of BaseHierarchy: what they return must be the fitted attributes
-        got = getattr(alg, via)(_container(a, container), force_bipartite=force_bipartite)
-        same = (np.array_equal(got, alg.dendrogram_) and np.array_equal(alg.predict(), alg.dendrogram_)
-                and np.array_equal(alg.transform(), alg.dendrogram_))
-        if bip:
-            same = same and np.array_equal(alg.predict(columns=True), alg.dendrogram_col_)
-        return 'ok' if same else 'malformed-dendrogram'
-    st = _call(f)
+    res = _sup_fit('Paris', {'weights': weights, 'reorder': reorder}, a, force_bipartite, container, refit, via)
+    if res is None:
+        if ctx is not None:
+            ctx.count('skipped:after-%d-fits-that-did-not-return' % HANG_LIMIT)
+        return []
+    st, alg, _ = res
     key = ('paris', json.dumps(_gdesc(a)), weights, reorder, force_bipartite, container, json.dumps(refit), via)
     sig = {'entry': 'Paris', 'weights': weights, 'reorder': reorder, 'bipartite': bip}
     desc = {'f': 'Paris', 'graph': _gdesc(a), 'weights': weights, 'reorder': reorder, 'force_bipartite': force_bipartite}
@@ -391,19 +490,13 @@ def _fit_capture(alg, a, force_bipartite):
 
 
 def cases_louvain(kind, a, opts, force_bipartite=False, container=None, refit=None):
-    from sknetwork.hierarchy import LouvainHierarchy, LouvainIteration
     from sknetwork.utils.format import get_adjacency
     a = sparse.csr_matrix(a)
     bip = force_bipartite or a.shape[0] != a.shape[1]
-    alg = (LouvainHierarchy if kind == 'LouvainHierarchy' else LouvainIteration)(**opts)
-    rec = {}
-
-    def f():
-        if refit is not None:
-            alg.fit(_gfrom(refit))
-        rec.update(_fit_capture(alg, _container(a, container), force_bipartite))
-        return 'ok'
-    st = _call(f)
+    res = _sup_fit(kind, opts, a, force_bipartite, container, refit, None, capture=True)
+    if res is None:
+        return []
+    st, alg, rec = res
     okey = json.dumps(opts, sort_keys=True)
     key = (kind, json.dumps(_gdesc(a)), okey, force_bipartite, container, json.dumps(refit))
     sig = {'entry': kind, 'bipartite': bip, 'shuffle': bool(opts.get('shuffle_nodes'))}
@@ -507,8 +600,11 @@ def near_tie_cases(ctx, rng, count):
         if k % 20 == 0:
             out += cases_paris(a, 'degree', reorder)
             continue
-        alg = Paris(weights='degree', reorder=reorder)
-        st = _call(lambda: (alg.fit(a.copy()), 'ok')[1])
+        res = _sup_fit('Paris', {'weights': 'degree', 'reorder': reorder}, a)
+        if res is None:
+            ctx.count('skipped:after-%d-fits-that-did-not-return' % HANG_LIMIT)
+            continue
+        st, alg, _ = res
         sig = {'entry': 'Paris', 'weights': 'degree', 'reorder': reorder, 'bipartite': False}
         desc = {'f': 'Paris', 'graph': _gdesc(a), 'weights': 'degree', 'reorder': reorder, 'force_bipartite': False}
         key = ('paris-hunt', json.dumps(desc['graph']), reorder)
@@ -673,6 +769,78 @@ def stored_zero_cases(ctx, rng, count):
     return out
 
 
+FRACTIONS = [0.25, 0.5, 0.75, 0.1, 0.9, 1.0 / 3]
+
+
+def fractional_digraph_cases(ctx, rng, count):
+    """DIRECTED graphs whose entries cannot be told from their mirror entries by the integer part: every weight in
+    (0, 1) (a digraph scaled by 0.5 / 0.25, weights 0.25 / 0.75, DAGs), mirrored pairs that differ in the fractional part
+    only (1.25 against 1.75, 2 against 2.5), mixed with pairs that are really symmetric and with one-way edges >= 1.
+    Paris must symmetrise them (A + A^T) like any digraph; all digraphs of 3 nodes x 0.5, then sampled ones."""
+    out = []
+
+    def emit(a, kind, popts, louvain, container=None):
+        if a.nnz == 0 or (a != a.T).nnz == 0:
+            return
+        if container and not _container_ok(a, container):
+            container = None
+        ctx.count('fractional-digraph:' + kind)
+        for w, r in popts:
+            out.extend(cases_paris(a, w, r, ctx=ctx, container=container))
+        if louvain:
+            out.extend(cases_louvain('LouvainIteration', a, {}, False))
+            out.extend(cases_louvain('LouvainHierarchy', a, {}, False))
+
+    dg = [es for es in graphs.all_digraphs(3) if es]
+    for es in dg:
+        a = graphs.csr_from_edges(3, es, [0.5] * len(es))
+        emit(a, 'n=3 x 0.5', [PARIS_OPTS[0], PARIS_OPTS[3]] if ctx.quick else PARIS_OPTS, rng.random() < 0.25)
+    for c in range(count):
+        n = rng.randint(4, 8)
+        kind = rng.choice(['scaled', 'below-one', 'dag', 'same-integer-part', 'mixed'])
+        if kind == 'dag':
+            perm = list(range(n))
+            rng.shuffle(perm)
+            es = [(perm[i], perm[j]) for i in range(n) for j in range(i + 1, n) if rng.random() < 0.45]
+        else:
+            es = graphs.random_edges(rng, n, rng.choice([0.25, 0.4, 0.6]), directed=True)
+        if not es:
+            continue
+        present = set(es)
+        if kind == 'scaled' or kind == 'dag':
+            f = rng.choice([0.5, 0.25])
+            ws = [f] * len(es)
+        elif kind == 'below-one':
+            ws = [rng.choice(FRACTIONS) for _ in es]
+        elif kind == 'same-integer-part':
+            # every entry k + fraction with the same k on both sides of a pair; one-way edges stay below 1
+            base = {}
+            ws = []
+            for (i, j) in es:
+                k = (min(i, j), max(i, j))
+                if (j, i) in present:
+                    base.setdefault(k, rng.choice([0, 1, 2]))
+                    ws.append(base[k] + rng.choice([0.0, 0.25, 0.5, 0.75]) + (0.125 if base[k] == 0 else 0.0))
+                else:
+                    ws.append(rng.choice(FRACTIONS))
+        else:
+            # mixed: symmetric pairs, pairs differing in the fraction only, one-way edges of any size
+            sym = {}
+            ws = []
+            for (i, j) in es:
+                k = (min(i, j), max(i, j))
+                if (j, i) in present:
+                    if k not in sym:
+                        sym[k] = (rng.random() < 0.5, float(rng.choice([1, 2, 3])))
+                    same, b = sym[k]
+                    ws.append(b + 0.5 if same else b + rng.choice([0.0, 0.25, 0.75]))
+                else:
+                    ws.append(float(rng.choice([0.5, 0.25, 1.0, 2.0, 3.5])))
+        a = graphs.csr_from_edges(n, es, ws)
+        emit(a, kind, rng.sample(PARIS_OPTS, 2), rng.random() < 0.3, container=('float32' if c % 7 == 0 else None))
+    return out
+
+
 class Sub0:
     def count(self, *a, **k):
         pass
@@ -695,8 +863,10 @@ def wide_cases(ctx):
     a = graphs.csr_from_edges(n, es, [1.0] * len(es))
     from sknetwork.hierarchy import LouvainHierarchy, LouvainIteration
     for kind, cls in (('LouvainHierarchy', LouvainHierarchy), ('LouvainIteration', LouvainIteration)):
-        alg = cls()
-        st = _call(lambda: (alg.fit(a.copy()), 'ok')[1])
+        res = _sup_fit(kind, {}, a)
+        if res is None:
+            continue
+        st, alg, _ = res
         sig = {'entry': kind, 'bipartite': False, 'shuffle': False, 'origin': 'wide'}
         desc = {'f': kind, 'wide_matching': n, 'opts': {}}
         out += _out_cases(kind, {}, a, alg, st, True, (kind, 'wide-matching', n), sig, desc, False, True)
@@ -807,6 +977,7 @@ def build_cases(ctx):
         ctx.count('graph:palette ' + name.rstrip('0123456789'))
     cases += container_cases(ctx, rng, 60 if quick else 800)
     cases += stored_zero_cases(ctx, rng, 25 if quick else 400)
+    cases += fractional_digraph_cases(ctx, rng, 60 if quick else 1200)
     cases += wide_cases(ctx)
     # near-ties: unweighted graphs on 7-9 nodes make many merges of equal height; the float32 similarities of
     # Paris then order a parent and its child by rounding noise (spec lines only: validity of dendrogram_)
@@ -872,7 +1043,12 @@ def evaluate(ctx, cases):
 
 
 def run(ctx):
-    evaluate(ctx, build_cases(ctx))
+    cases = build_cases(ctx)
+    if _SUP['hangs']:
+        ctx.count('fits that did not return', _SUP['hangs'])
+        ctx.note('%d fit(s) did not return within the waiting time and were stopped (each is reported as `err DidNotReturn`); '
+                 '%d later fit(s) were not run' % (_SUP['hangs'], _SUP['skipped']))
+    evaluate(ctx, cases)
 
 
 def _neighbourhood(desc, rng, limit=120):
